@@ -35,6 +35,38 @@ except (OSError, ValueError):
 
 CLI_DIR = os.environ.get("VERIF_CLI_DIR", "/verif/build/lib-cli")
 SCRATCH = os.environ.get("VERIF_SCRATCH") or tempfile.mkdtemp(prefix="verif-py-", dir="/verif/build")
+
+
+def _others_can_reach(path):
+    p = os.path.abspath(path)
+    while True:
+        try:
+            if not (os.stat(p).st_mode & 0o001):
+                return False
+        except OSError:
+            return False
+        if p == "/":
+            return True
+        p = os.path.dirname(p)
+
+
+# Some scenarios run the tools as an unprivileged user (nobody).  If the checkout lives below a directory that other users cannot
+# traverse (e.g. a snapshot under /root), the scratch area moves to a private directory under /tmp for the duration of the run.
+if not _others_can_reach(SCRATCH):
+    import atexit as _atexit
+    SCRATCH = tempfile.mkdtemp(prefix="verif-py-scratch-", dir="/tmp")
+    os.chmod(SCRATCH, 0o755)
+    _atexit.register(shutil.rmtree, SCRATCH, ignore_errors=True)
+if not _others_can_reach(CLI_DIR):
+    # the same for the tools themselves (statically linked; scripts): an unprivileged user must be able to execute them
+    _bin = os.path.join(SCRATCH, "cli-bin")
+    os.makedirs(_bin, exist_ok=True)
+    for _n in os.listdir(CLI_DIR):
+        _p = os.path.join(CLI_DIR, _n)
+        if os.path.isfile(_p) and os.access(_p, os.X_OK):
+            shutil.copy2(_p, os.path.join(_bin, _n))
+    os.chmod(_bin, 0o755)
+    CLI_DIR = _bin
 SHIM_DIR = os.environ.get("VERIF_SHIM_DIR", "/verif/build/bin")
 REPO = os.environ.get("VERIF_REPO", "/repo")
 KNOWN = set(filter(None, os.environ.get("VERIF_KNOWN", "").split(",")))
